@@ -21,6 +21,7 @@ ASSUMPTIONS = [
     "the property's 'random histories up to width 256' is replaced by small-scope closure (widths<=8 quick / <=12 thorough complete) plus an exhaustive boundary grid for widths 16,24,25,63,64,255,256",
     "documented exceptions: IndexError out-of-range index, ValueError negative/oversized value, TypeError stepped slice / non-integer operand, OverflowError pack_len too short",
 ]
+CHAIN_STRIDE = {'quick': 6, 'thorough': 12}      # every k-th shard is re-run in chains inside one process (non-initial process states)
 BOUNDS = {"quick": "widths 1..8 complete + boundary widths + all ordered pairs of widths {1,2,3,5,7,8,9,16,24} in one process (3 states each)", "thorough": "widths 1..12 complete + boundary widths (larger grid)"}
 
 BIG = [16, 24, 25, 63, 64, 255, 256]
